@@ -83,7 +83,10 @@ Definition no_hooks : hooks :=
 (* ---------- state ---------- *)
 Record session := { se_will : option msg; se_will_delay : N; se_connected_at : N; se_expiry : N }.
 
-Inductive phase := PhFresh | PhConnected | PhClosed.
+(* PhZombie: the packet handlers have stopped (client DISCONNECT, or an error that sends no
+   DISCONNECT packet) but the broker keeps the socket - and the registration - until the peer
+   closes it; PhDead: CONNECT failed, the socket stays open and is ignored *)
+Inductive phase := PhFresh | PhConnected | PhZombie | PhDead | PhClosed.
 
 Record conn := {
   k_cid : str; k_v : N; k_phase : phase;
@@ -106,12 +109,13 @@ Record st := {
   b_unacks : list (str * unack);
   b_conns : list (N * conn);
   b_picks : list nat;                        (* oracle-resolved random choices of flush *)
-  b_tag : N }.
+  b_tag : N;
+  b_auto : N }.                              (* client ids assigned so far *)
 
 Definition st_init (c : cfg) (h : hooks) (picks : list nat) : st :=
   {| b_cfg := c; b_hooks := h; b_now := 1000000000000; b_rt := 0; b_sessions := []; b_online := []; b_offline := [];
      b_wills := []; b_subs := db_init; b_ret := rdb_init; b_queues := []; b_unacks := []; b_conns := [];
-     b_picks := picks; b_tag := 1 |}.
+     b_picks := picks; b_tag := 1; b_auto := 0 |}.
 
 (* association lists keyed by socket number *)
 Fixpoint nget {V} (k : N) (l : list (N * V)) : option V :=
@@ -129,38 +133,38 @@ Inductive out :=
 Definition upd_conn (c : N) (k : conn) (s : st) : st :=
   {| b_cfg := b_cfg s; b_hooks := b_hooks s; b_now := b_now s; b_rt := b_rt s; b_sessions := b_sessions s;
      b_online := b_online s; b_offline := b_offline s; b_wills := b_wills s; b_subs := b_subs s; b_ret := b_ret s;
-     b_queues := b_queues s; b_unacks := b_unacks s; b_conns := nset c k (b_conns s); b_picks := b_picks s; b_tag := b_tag s |}.
+     b_queues := b_queues s; b_unacks := b_unacks s; b_conns := nset c k (b_conns s); b_picks := b_picks s; b_tag := b_tag s; b_auto := b_auto s |}.
 
 Definition set_queues (q : list (str * queue)) (s : st) : st :=
   {| b_cfg := b_cfg s; b_hooks := b_hooks s; b_now := b_now s; b_rt := b_rt s; b_sessions := b_sessions s;
      b_online := b_online s; b_offline := b_offline s; b_wills := b_wills s; b_subs := b_subs s; b_ret := b_ret s;
-     b_queues := q; b_unacks := b_unacks s; b_conns := b_conns s; b_picks := b_picks s; b_tag := b_tag s |}.
+     b_queues := q; b_unacks := b_unacks s; b_conns := b_conns s; b_picks := b_picks s; b_tag := b_tag s; b_auto := b_auto s |}.
 
 Definition set_tables (se : list (str * session)) (on off : list (str * N)) (w : list (str * (msg * N)))
                       (q : list (str * queue)) (u : list (str * unack)) (s : st) : st :=
   {| b_cfg := b_cfg s; b_hooks := b_hooks s; b_now := b_now s; b_rt := b_rt s; b_sessions := se;
      b_online := on; b_offline := off; b_wills := w; b_subs := b_subs s; b_ret := b_ret s;
-     b_queues := q; b_unacks := u; b_conns := b_conns s; b_picks := b_picks s; b_tag := b_tag s |}.
+     b_queues := q; b_unacks := u; b_conns := b_conns s; b_picks := b_picks s; b_tag := b_tag s; b_auto := b_auto s |}.
 
 Definition set_subs (d : db) (s : st) : st :=
   {| b_cfg := b_cfg s; b_hooks := b_hooks s; b_now := b_now s; b_rt := b_rt s; b_sessions := b_sessions s;
      b_online := b_online s; b_offline := b_offline s; b_wills := b_wills s; b_subs := d; b_ret := b_ret s;
-     b_queues := b_queues s; b_unacks := b_unacks s; b_conns := b_conns s; b_picks := b_picks s; b_tag := b_tag s |}.
+     b_queues := b_queues s; b_unacks := b_unacks s; b_conns := b_conns s; b_picks := b_picks s; b_tag := b_tag s; b_auto := b_auto s |}.
 
 Definition set_ret (r : rdb) (s : st) : st :=
   {| b_cfg := b_cfg s; b_hooks := b_hooks s; b_now := b_now s; b_rt := b_rt s; b_sessions := b_sessions s;
      b_online := b_online s; b_offline := b_offline s; b_wills := b_wills s; b_subs := b_subs s; b_ret := r;
-     b_queues := b_queues s; b_unacks := b_unacks s; b_conns := b_conns s; b_picks := b_picks s; b_tag := b_tag s |}.
+     b_queues := b_queues s; b_unacks := b_unacks s; b_conns := b_conns s; b_picks := b_picks s; b_tag := b_tag s; b_auto := b_auto s |}.
 
 Definition set_time (now rt : N) (s : st) : st :=
   {| b_cfg := b_cfg s; b_hooks := b_hooks s; b_now := now; b_rt := rt; b_sessions := b_sessions s;
      b_online := b_online s; b_offline := b_offline s; b_wills := b_wills s; b_subs := b_subs s; b_ret := b_ret s;
-     b_queues := b_queues s; b_unacks := b_unacks s; b_conns := b_conns s; b_picks := b_picks s; b_tag := b_tag s |}.
+     b_queues := b_queues s; b_unacks := b_unacks s; b_conns := b_conns s; b_picks := b_picks s; b_tag := b_tag s; b_auto := b_auto s |}.
 
 Definition set_picks_tag (p : list nat) (t : N) (s : st) : st :=
   {| b_cfg := b_cfg s; b_hooks := b_hooks s; b_now := b_now s; b_rt := b_rt s; b_sessions := b_sessions s;
      b_online := b_online s; b_offline := b_offline s; b_wills := b_wills s; b_subs := b_subs s; b_ret := b_ret s;
-     b_queues := b_queues s; b_unacks := b_unacks s; b_conns := b_conns s; b_picks := p; b_tag := t |}.
+     b_queues := b_queues s; b_unacks := b_unacks s; b_conns := b_conns s; b_picks := p; b_tag := t; b_auto := b_auto s |}.
 
 Definition set_unacks (u : list (str * unack)) (s : st) : st :=
   set_tables (b_sessions s) (b_online s) (b_offline s) (b_wills s) (b_queues s) u s.
@@ -333,43 +337,56 @@ Definition unregister (c : N) (k : conn) (s : st) : st * list out :=
       else (remove_session cid s1, o1)
   end.
 
-(* close socket c from the broker side, optionally after an error DISCONNECT (v5, connected) *)
-Definition close_conn (c : N) (code : option N) (s : st) : st * list out :=
+Definition set_phase (ph : phase) (k : conn) : conn :=
+  {| k_cid := k_cid k; k_v := k_v k; k_phase := ph; k_max_inflight := k_max_inflight k;
+     k_client_max_packet := k_client_max_packet k; k_client_alias_max := k_client_alias_max k;
+     k_server_alias_max := k_server_alias_max k; k_recv_max := k_recv_max k; k_keepalive := k_keepalive k;
+     k_session_expiry := k_session_expiry k; k_retain_avail := k_retain_avail k; k_wildcard := k_wildcard k;
+     k_subid := k_subid k; k_shared := k_shared k; k_lim := k_lim k;
+     k_held := match ph with PhClosed => None | _ => k_held k end;
+     k_alias_out := k_alias_out k; k_alias_in := k_alias_in k; k_alias_in_size := k_alias_in_size k;
+     k_quota := k_quota k; k_clean_will := k_clean_will k; k_disc_sei := k_disc_sei k;
+     k_got_disconnect := k_got_disconnect k; k_force_remove := k_force_remove k; k_drained := k_drained k |}.
+
+(* the TCP connection of socket c has gone (closed by either side): a registered client is
+   unregistered (internalClose) *)
+Definition conn_gone (c : N) (s : st) : st * list out :=
   match nget c (b_conns s) with
   | None => (s, [])
   | Some k =>
       match k_phase k with
       | PhClosed => (s, [])
-      | PhFresh =>
-          let k' := {| k_cid := k_cid k; k_v := k_v k; k_phase := PhClosed; k_max_inflight := k_max_inflight k;
-                       k_client_max_packet := k_client_max_packet k; k_client_alias_max := k_client_alias_max k;
-                       k_server_alias_max := k_server_alias_max k; k_recv_max := k_recv_max k; k_keepalive := k_keepalive k;
-                       k_session_expiry := k_session_expiry k; k_retain_avail := k_retain_avail k; k_wildcard := k_wildcard k;
-                       k_subid := k_subid k; k_shared := k_shared k; k_lim := k_lim k; k_held := None;
-                       k_alias_out := k_alias_out k; k_alias_in := k_alias_in k; k_alias_in_size := k_alias_in_size k;
-                       k_quota := k_quota k; k_clean_will := k_clean_will k; k_disc_sei := k_disc_sei k;
-                       k_got_disconnect := k_got_disconnect k; k_force_remove := k_force_remove k; k_drained := k_drained k |} in
-          (upd_conn c k' s, [OClose c])
-      | PhConnected =>
-          let o0 := match code with
-                    | Some cd => if k_v k =? 5 then [OSend c (KDisconnect cd [])] else []
-                    | None => []
-                    end in
-          let k' := {| k_cid := k_cid k; k_v := k_v k; k_phase := PhClosed; k_max_inflight := k_max_inflight k;
-                       k_client_max_packet := k_client_max_packet k; k_client_alias_max := k_client_alias_max k;
-                       k_server_alias_max := k_server_alias_max k; k_recv_max := k_recv_max k; k_keepalive := k_keepalive k;
-                       k_session_expiry := k_session_expiry k; k_retain_avail := k_retain_avail k; k_wildcard := k_wildcard k;
-                       k_subid := k_subid k; k_shared := k_shared k; k_lim := k_lim k; k_held := None;
-                       k_alias_out := k_alias_out k; k_alias_in := k_alias_in k; k_alias_in_size := k_alias_in_size k;
-                       k_quota := k_quota k; k_clean_will := k_clean_will k; k_disc_sei := k_disc_sei k;
-                       k_got_disconnect := k_got_disconnect k; k_force_remove := k_force_remove k; k_drained := k_drained k |} in
+      | PhFresh | PhDead => (upd_conn c (set_phase PhClosed k) s, [OClose c])
+      | PhConnected | PhZombie =>
+          let k' := set_phase PhClosed k in
           (* the queue store is closed when the connection goes away *)
           let s0 := match aget (k_cid k) (b_queues s) with
                     | Some q => set_queues (aset (k_cid k) (q_close q) (b_queues s)) s
                     | None => s
                     end in
           let '(s', o') := unregister c k' (upd_conn c k' s0) in
-          (s', o0 ++ [OClose c] ++ o')
+          (s', [OClose c] ++ o')
+      end
+  end.
+
+(* a packet handler (by_reader = false) or the read loop (by_reader = true) fails on socket c.
+   setError sends DISCONNECT(code) to a connected v5 client and the write loop then closes
+   the socket; the read loop's own errors end the connection too; otherwise the handlers
+   stop and the socket lingers until the peer closes it. *)
+Definition fail_conn (c : N) (code : option N) (by_reader : bool) (s : st) : st * list out :=
+  match nget c (b_conns s) with
+  | None => (s, [])
+  | Some k =>
+      match k_phase k with
+      | PhConnected =>
+          let disc := match code with
+                      | Some cd => if k_v k =? 5 then [OSend c (KDisconnect cd [])] else []
+                      | None => []
+                      end in
+          if by_reader || match disc with [] => false | _ => true end
+          then let '(s', o) := conn_gone c s in (s', disc ++ o)
+          else (upd_conn c (set_phase PhZombie k) s, [])
+      | _ => (s, [])
       end
   end.
 
@@ -393,6 +410,19 @@ Definition auth_code (cn : connect) (s : st) : N :=
       end
   end.
 
+(* broker-assigned client ids are canonicalised by the harness to auto1, auto2, ... *)
+Definition AUTO_PREFIX : str := [97; 117; 116; 111].
+Fixpoint dec_digits (fuel : nat) (n : N) (acc : str) : str :=
+  match fuel with
+  | O => acc
+  | S f => let acc' := (48 + n mod 10) :: acc in if n / 10 =? 0 then acc' else dec_digits f (n / 10) acc'
+  end.
+Definition dec_str (n : N) : str := dec_digits 20 n [].
+Definition set_auto (a : N) (s : st) : st :=
+  {| b_cfg := b_cfg s; b_hooks := b_hooks s; b_now := b_now s; b_rt := b_rt s; b_sessions := b_sessions s;
+     b_online := b_online s; b_offline := b_offline s; b_wills := b_wills s; b_subs := b_subs s; b_ret := b_ret s;
+     b_queues := b_queues s; b_unacks := b_unacks s; b_conns := b_conns s; b_picks := b_picks s; b_tag := b_tag s; b_auto := a |}.
+
 Definition fresh_conn (cid : str) (v : N) : conn :=
   {| k_cid := cid; k_v := v; k_phase := PhFresh; k_max_inflight := 0; k_client_max_packet := U32MAX;
      k_client_alias_max := 0; k_server_alias_max := 0; k_recv_max := 0; k_keepalive := 0; k_session_expiry := 0;
@@ -414,20 +444,18 @@ Definition handle_connect (c : N) (cn : connect) (s : st) : st * list out :=
   let cfg_ := b_cfg s in
   if negb (c_allow_zero_len cfg_) && is_empty (cn_cid cn) then
     (* rejected before the version is recorded: the CONNACK is packed for version 0 *)
-    let k := fresh_conn [] 0 in
-    let '(s', o) := close_conn c None (upd_conn c k s) in
-    (s', [OSend c (KConnack false 133 [])] ++ o)
+    (upd_conn c (set_phase PhDead (fresh_conn [] 0)) s, [OSend c (KConnack false 133 [])])
   else
     let code := if (v5 && match p_authmethod (cn_props cn) with Some _ => true | None => false end)
                 then 128      (* enhanced authentication without a hook: generic error *)
                 else auth_code cn s in
     if negb (code =? 0) then
       let code' := if negb v5 && (5 <? code) then 135 else code in
-      let k := fresh_conn (cn_cid cn) v in
-      let '(s', o) := close_conn c None (upd_conn c k s) in
-      (s', [OSend c (KConnack false code' [])] ++ o)
+      (upd_conn c (set_phase PhDead (fresh_conn (cn_cid cn) v)) s, [OSend c (KConnack false code' [])])
     else
-      let cid := cn_cid cn in
+      let assigned := is_empty (cn_cid cn) in
+      let cid := if assigned then AUTO_PREFIX ++ dec_str (b_auto s + 1) else cn_cid cn in
+      let s := if assigned then set_auto (b_auto s + 1) s else s in
       let sess_exp0 := c_session_expiry cfg_ in
       let sess_exp := if v5 then match p_sei (cn_props cn) with
                                  | None => 0
@@ -446,7 +474,7 @@ Definition handle_connect (c : N) (cn : connect) (s : st) : st * list out :=
       (* take over an online duplicate first *)
       let '(s, o_dup) :=
         match aget cid (b_online s) with
-        | Some oldc => close_conn oldc (Some 142) s
+        | Some oldc => conn_gone oldc s          (* setError(SessionTakenOver) + Close(): the DISCONNECT races with the close and is normally lost *)
         | None => (s, [])
         end in
       let old := aget cid (b_sessions s) in
@@ -502,7 +530,8 @@ Definition handle_connect (c : N) (cn : connect) (s : st) : st * list out :=
                      [PSei sess_exp; PRecvMax (c_recv_max cfg_); PMaxQos (if 2 <=? c_max_qos cfg_ then 1 else 0);
                       PRetainAvail (if c_retain_avail cfg_ then 1 else 0); PAliasMax (c_alias_max cfg_);
                       PWildcard (if c_wildcard cfg_ then 1 else 0); PSubIdAvail (if c_subid cfg_ then 1 else 0);
-                      PSharedAvail (if c_shared cfg_ then 1 else 0); PMaxPkt (c_max_packet cfg_); PKeepAlive ka]
+                      PSharedAvail (if c_shared cfg_ then 1 else 0); PMaxPkt (c_max_packet cfg_); PKeepAlive ka] ++
+                     (if assigned then [PAssigned cid] else [])
                    else [] in
       (* the will of the discarded session is published by its timer goroutine once the broker lock is free *)
       let '(s, o_w) := fold_left (fun acc cw => let '(s0, o0) := acc in
@@ -571,7 +600,7 @@ Definition poll_once (c : N) (s : st) : option (st * list out) :=
   | None => None
   | Some k =>
       match k_phase k with
-      | PhConnected =>
+      | PhConnected | PhZombie =>
           match aget (k_cid k) (b_queues s) with
           | None => None
           | Some q =>
@@ -643,7 +672,16 @@ Fixpoint poll_conn (fuel : nat) (c : N) (s : st) : st * list out :=
   match fuel with
   | O => (s, [])
   | S f => match poll_once c s with
-           | Some (s', o) => let '(s'', o') := poll_conn f c s' in (s'', o ++ o')
+           | Some (s', o) =>
+               (* a zombie's poll loop keeps consuming its queue, but client.write drops everything *)
+               let o := match nget c (b_conns s) with
+                        | Some k => match k_phase k with
+                                    | PhZombie => filter (fun x => match x with OSend _ _ => false | _ => true end) o
+                                    | _ => o
+                                    end
+                        | None => o
+                        end in
+               let '(s'', o') := poll_conn f c s' in (s'', o ++ o')
            | None => (s, [])
            end
   end.
@@ -696,7 +734,7 @@ Definition set_force (k : conn) : conn :=
      k_got_disconnect := k_got_disconnect k; k_force_remove := true; k_drained := k_drained k |}.
 
 (* a handler result: continue, or the connection dies with this reason code (None = plain error) *)
-Inductive hres := HOk (s : st) (o : list out) | HErr (s : st) (o : list out) (code : option N).
+Inductive hres := HOk (s : st) (o : list out) | HErr (s : st) (o : list out) (code : option N) | HErrRead (s : st) (code : option N).
 
 Definition msg_of_publish (v5 : bool) (dup : bool) (qos : N) (retain : bool) (topic payload : str) (pid : N) (props : list prop) : msg :=
   {| m_dup := dup; m_qos := qos; m_retained := retain; m_topic := topic; m_payload := payload; m_pid := 0;
@@ -792,7 +830,8 @@ Definition replay_retained (c : N) (k : conn) (sb : sub) (s : st) : st * list ou
                | None => (s0, o0)
                | Some q =>
                    let qos := if s_qos sb <? m_qos m then s_qos sb else m_qos m in
-                   let m' := with_qos_etc m qos [] true in
+                   (* as coded (and as the repository's own tests demand): RETAIN survives only under Retain-As-Published *)
+                   let m' := with_qos_etc m qos [] (m_retained m && s_rap sb) in
                    let expiry := if m_expiry m =? 0 then None else Some (b_now s0 + m_expiry m * 1000) in
                    let e := {| e_tag := b_tag s0; e_at := b_now s0; e_expiry := expiry; e_body := QPub m' |} in
                    match q_add (b_now s0) e q with
@@ -803,6 +842,14 @@ Definition replay_retained (c : N) (k : conn) (sb : sub) (s : st) : st * list ou
                    end
                end)
             (rdb_matched (s_filter sb) (b_ret s)) (s, []).
+
+(* subReq.Subscriptions is a map keyed by the topic name: when a SUBSCRIBE lists a name twice, every
+   entry of that name is processed with the options of the last one *)
+Fixpoint last_with_name (name : str) (l : list topic_req) (d : topic_req) : topic_req :=
+  match l with
+  | [] => d
+  | t :: r => last_with_name name r (if str_eqb (tq_name t) name then t else d)
+  end.
 
 (* subscribeHandler *)
 Definition handle_subscribe (c : N) (k : conn) (pid : N) (props : list prop) (topics : list topic_req) (s : st) : hres :=
@@ -818,7 +865,8 @@ Definition handle_subscribe (c : N) (k : conn) (pid : N) (props : list prop) (to
           fold_left
             (fun acc t =>
                let '(s0, o0, cs) := acc in
-               let sb0 := sub_of_req t subid in
+               let t_eff := last_with_name (tq_name t) topics t in
+               let sb0 := sub_of_req t_eff subid in
                let action := opt_or (match find (fun e => str_eqb (fst (fst e)) (k_cid k) && str_eqb (snd (fst e)) (tq_name t)) (h_sub (b_hooks s0)) with
                                      | Some e => Some (snd e) | None => None end) SAccept in
                let sb := match action with
@@ -867,7 +915,7 @@ Definition handle_packet (c : N) (k : conn) (p : pkt) (s : st) : hres :=
   match p with
   | KPublish dup qos retain topic payload pid props =>
       (* readLoop: receive quota *)
-      if v5 && (0 <? qos) && (k_quota k =? 0) then HErr s [] (Some 147)
+      if v5 && (0 <? qos) && (k_quota k =? 0) then HErrRead s (Some 147)
       else
         let k := if v5 && (0 <? qos) then set_quota (k_quota k - 1) k else k in
         handle_publish c k dup qos retain topic payload pid props (upd_conn c k s)
@@ -897,7 +945,9 @@ Definition handle_packet (c : N) (k : conn) (p : pkt) (s : st) : hres :=
         let sei := p_sei props in
         match aget (k_cid k) (b_sessions s) with
         | Some se =>
-            if (se_expiry se =? 0) && negb (opt_or sei 0 =? 0) then HErr s [] (Some 130)
+            (* the handler's error is dropped by readHandle (`return` before err is set): no DISCONNECT is sent,
+               and the request is not recorded (the will stays armed) *)
+            if (se_expiry se =? 0) && negb (opt_or sei 0 =? 0) then HErr s [] None
             else
               (* SetSessionExpiry on the stored session *)
               let s := match sei with
@@ -908,7 +958,7 @@ Definition handle_packet (c : N) (k : conn) (p : pkt) (s : st) : hres :=
                        | None => s
                        end in
               HErr (upd_conn c (set_disc (negb (code =? 4)) sei k) s) [] None
-        | None => HErr s [] (Some 128)
+        | None => HErr s [] None
         end
       else HErr (upd_conn c (set_disc true None k) s) [] None
   | KAuth _ _ => HErr s [] (Some 130)
@@ -946,11 +996,10 @@ Definition fire_wills (s : st) : st * list out :=
 Definition step_event (s : st) (e : event) : st * list out :=
   match e with
   | EConnect c cn =>
-      match nget c (b_conns s) with
-      | Some _ => (s, [])
-      | None => handle_connect c cn s
-      end
-  | EOpen c => (upd_conn c (fresh_conn [] 0) s, [])
+      let '(s0, o0) := conn_gone c s in
+      let '(s1, o1) := handle_connect c cn s0 in
+      (s1, filter (fun x => match x with OClose c' => negb (c' =? c) | _ => true end) o0 ++ o1)
+  | EOpen c => let '(s0, o0) := conn_gone c s in (upd_conn c (fresh_conn [] 0) s0, o0)
   | ESend c p =>
       match nget c (b_conns s) with
       | Some k =>
@@ -958,22 +1007,34 @@ Definition step_event (s : st) (e : event) : st * list out :=
           | PhConnected =>
               match handle_packet c k p s with
               | HOk s' o => (s', o)
-              | HErr s' o code => let '(s'', o') := close_conn c code s' in (s'', o ++ o')
+              | HErr s' o code => let '(s'', o') := fail_conn c code false s' in (s'', o ++ o')
+              | HErrRead s' code => fail_conn c code true s'
               end
           | PhFresh =>
-              (* before a successful CONNECT only CONNECT/AUTH are looked at: anything else is malformed *)
-              let '(s', o) := close_conn c None s in (s', [OSend c (KConnack false 129 [])] ++ o)
-          | PhClosed => (s, [])
+              (* before a successful CONNECT only CONNECT/AUTH are looked at: anything else is malformed;
+                 the client's version is still unknown, so the CONNACK is the 3.x form *)
+              (upd_conn c (set_phase PhDead k) s, [OSend c (KConnack false 129 [])])
+          | PhZombie =>
+              (* the read loop still runs: receive quota is charged and can end the connection *)
+              match p with
+              | KPublish _ qos _ _ _ _ _ =>
+                  if (k_v k =? 5) && (0 <? qos) then
+                    if k_quota k =? 0 then conn_gone c s
+                    else (upd_conn c (set_quota (k_quota k - 1) k) s, [])
+                  else (s, [])
+              | _ => (s, [])
+              end
+          | _ => (s, [])
           end
       | None => (s, [])
       end
-  | EClose c => let '(s', o) := close_conn c None s in (s', filter (fun x => match x with OClose _ => false | _ => true end) o)
+  | EClose c => let '(s', o) := conn_gone c s in (s', filter (fun x => match x with OClose _ => false | _ => true end) o)
   | EApiPublish m => let '(s', o, _) := deliver [] m s in (s', o)
   | ETerminate cid =>
       match aget cid (b_online s) with
       | Some c =>
           match nget c (b_conns s) with
-          | Some k => close_conn c None (upd_conn c (set_force k) s)
+          | Some k => conn_gone c (upd_conn c (set_force k) s)
           | None => (s, [])
           end
       | None => if ahas cid (b_offline s) then (remove_session cid s, []) else (s, [])
